@@ -7,8 +7,10 @@ package hash
 
 //@ ghost glHash string
 
-//@ -- a name keeps its suffix iff prefix+suffix fits and is not the ambiguous exact fit that starts with the marker
-//@ spec func glFits(p string, s string, max int) bool = len(p) + len(s) < max || (len(p) + len(s) == max && s[0:1] != "_")
+//@ -- a name keeps its suffix iff prefix+suffix fits and is not ambiguous: starting with the marker and exactly as
+//@ -- long as a shortened name (prefix, marker, as much of the 43-character hash text as fits)
+//@ spec func glKeep(max int, p string) int = max - 1 - len(p) < 43 ? max - 1 - len(p) : 43
+//@ spec func glFits(p string, s string, max int) bool = len(p) + len(s) <= max && !(len(s) == 1 + glKeep(max, p) && s[0:1] == "_")
 //@ spec func glSuffix(s string) string = s == "" ? "_" : s
 
 //@ -- Every name fits the limit and starts with its prefix; a name that fits is kept verbatim; otherwise it is
@@ -25,15 +27,15 @@ package hash
 //@   assigns glHash
 
 //@ -- The name as a function of (prefix, suffix, limit) and the hash text of the suffix.
-//@ spec func glKeep(max int, p string) int = max - 1 - len(p) < 43 ? max - 1 - len(p) : 43
 //@ spec func glName(p string, s string, max int, h string) string = glFits(p, glSuffix(s), max) ? p + glSuffix(s) : p + "_" + h[0:glKeep(max, p)]
-//@ -- Distinct identities get distinct names: kept names differ because the suffixes differ; a kept name never
-//@ -- equals a shortened one because identities do not start with the marker "_" (and an exact-fit name that
-//@ -- does is shortened); two shortened names differ provided the truncated hashes differ (cryptographic
-//@ -- assumption, stated as the hypothesis h1[0:k] != h2[0:k]).
+//@ -- Distinct identities get distinct names - including identities that begin with the marker "_": kept names
+//@ -- differ because the suffixes differ; a kept name never equals a shortened one because a suffix that starts
+//@ -- with the marker and has exactly the length of a shortened name is itself shortened; two shortened names
+//@ -- differ provided the truncated hashes differ (cryptographic assumption, stated as the hypothesis
+//@ -- h1[0:k] != h2[0:k]).
 //@ lemma gl_no_collision: forall p string, s1 string, s2 string, max int, h1 string, h2 string ::
 //@      len(p) + 2 <= max && len(h1) == 43 && len(h2) == 43 && s1 != s2 && s1 != "" && s2 != ""
-//@      && !hasPrefix(s1, "_") && !hasPrefix(s2, "_") && h1[0:glKeep(max, p)] != h2[0:glKeep(max, p)]
+//@      && h1[0:glKeep(max, p)] != h2[0:glKeep(max, p)]
 //@      ==> glName(p, s1, max, h1) != glName(p, s2, max, h2)
 //@   property C37
 //@   option mathint
